@@ -114,6 +114,13 @@ SizeRule(c, L2, slack, ub, sz) ==
           ELSE sz = L2
 
 SizeCands(c) == IF c.kind \in UtKinds THEN 0..Cardinality(Keys) ELSE 0..c.cap
+\* The sizes worth trying for a state with `n` live keys whose size was `size`: only tlru / utlru
+\* have a choice (how many expired entries were discarded); everything else reports its live count.
+\* (An optimisation of the candidate generators only: the Ok* judgements still decide.)
+SizeNear(c, s) ==
+  IF c.kind \in TtlCaches
+  THEN Max2(NLive(s) - 1, 0)..Min2(c.cap, s.size + 1)
+  ELSE Max2(NLive(s) - 1, 0)..(NLive(s) + 1)
 
 \* Drop the over-approximation of unreaped entries once size() shows there are none.
 NormUnr(s) == IF Surplus(s) = 0 THEN [s EXCEPT !.unr = {}] ELSE s
@@ -208,7 +215,7 @@ OkInsert(T, c, t, s, k, a, d, out) ==
   /\ ("C16" \in T) => ((c.kind \in TtlCaches /\ needSlot /\ full /\ sur >= 1) => g = {})
 
 InsertCands(c, s, k) ==
-  [ret : BOOLEAN, gone : {{}} \cup {{x} : x \in Live(s) \ {k}}, sz : SizeCands(c)]
+  [ret : BOOLEAN, gone : {{}} \cup {{x} : x \in Live(s) \ {k}}, sz : SizeNear(c, s)]
 
 OutsInsert(T, c, t, s, k, a, d) ==
   {o \in InsertCands(c, s, k) : OkInsert(T \cup StructTags, c, t, s, k, a, d, o)}
@@ -246,7 +253,7 @@ OkErase(T, c, t, s, k, out) ==
                                Cardinality(IF out.ret THEN s.unr \ {k} ELSE s.unr), out.sz)
 
 EraseCands(c, s, k) ==
-  [ret : BOOLEAN, gone : {{}} \cup (IF s.store[k] # None THEN {{k}} ELSE {}), sz : SizeCands(c)]
+  [ret : BOOLEAN, gone : {{}} \cup (IF s.store[k] # None THEN {{k}} ELSE {}), sz : SizeNear(c, s)]
 
 OutsErase(T, c, t, s, k) ==
   {o \in EraseCands(c, s, k) : OkErase(T \cup StructTags, c, t, s, k, o)}
@@ -285,7 +292,7 @@ FindCands(c, s, k, wc) ==
   {[val |-> v, rc |-> r, wc |-> wc, sz |-> z] :
       v \in {None, s.store[k]},
       r \in IF wc /\ c.kind \in CntKinds THEN {0, s.cnt[k], s.cnt[k] + 1} ELSE {0},
-      z \in SizeCands(c)}
+      z \in SizeNear(c, s)}
 
 OutsFind(T, c, t, s, k, peek, wc) ==
   {o \in FindCands(c, s, k, wc) :
